@@ -11,3 +11,27 @@ package header
 //@ use casketfile/contracts_verif.go:dispenser_api
 //@ use @verif/specs/stdlib.spec:stdlib
 //@ use @verif/specs/stdlib.spec:casket_api
+
+//@ unit header_handler_chain frames=on props=C12 filter=`header\.Headers\)\.ServeHTTP$`
+//@ // C12: a pass-through middleware - it edits header fields of the (wrapped) response, sends nothing itself, calls the next
+//@ // handler exactly once and returns exactly what that returned
+//@ use @verif/specs/stdlib.spec:handler_chain
+//@ use @verif/specs/stdlib.spec:stdlib
+//@ extern github.com/tmpim/casket/caskethttp/httpserver.NewReplacer
+//@   ensures result != nil
+//@ extern invoke:(github.com/tmpim/casket/caskethttp/httpserver.Replacer).Replace
+//@ extern (github.com/tmpim/casket/caskethttp/httpserver.Path).Matches
+//@   pure
+//@ extern strings.TrimLeft
+//@   pure
+//@ func (*responseWriterWrapper).delHeader
+//@ func (*responseWriterWrapper).Header
+//@   ensures result != nil
+//@ func (Headers).ServeHTTP
+//@   requires w != nil && r != nil && r.URL != nil && h.Next != nil
+//@   modifies ghost:nextCalls, ghost:nextRet
+//@   ensures [passes_on_once_returns_its_answer_sends_nothing] nextCalls == old(nextCalls) + 1 && result0 == nextRet && hw == old(hw) && bodyWrites == old(bodyWrites)
+//@   loop 1 invariant nextCalls == old(nextCalls) && hw == old(hw) && bodyWrites == old(bodyWrites)
+//@   loop 2 invariant nextCalls == old(nextCalls) && hw == old(hw) && bodyWrites == old(bodyWrites)
+//@   loop 3 invariant nextCalls == old(nextCalls) && hw == old(hw) && bodyWrites == old(bodyWrites)
+//@   loop 4 invariant nextCalls == old(nextCalls) && hw == old(hw) && bodyWrites == old(bodyWrites)
